@@ -671,3 +671,369 @@ func ruleE7d(c *Ctx) {
 	c.floor("E7d", 8)
 	c.analysed["E7d_parses"] = n
 }
+
+// ---------------------------------------------------------------------------------------
+// N15: the symbol table is consulted whatever the name looks like
+// ---------------------------------------------------------------------------------------
+
+func ruleN15(c *Ctx) {
+	c.doc("N15", "a symbol-table lookup is not made conditional on the spelling of the name (no regexp / prefix / character-class test of the key decides whether the table is consulted): every name the grammar accepts as a label is looked up the same way")
+	n := 0
+	for _, f := range c.L.RepoFuncs() {
+		if c.isGeneratedFn(f) || pkgRel(f) == "test" {
+			continue
+		}
+		per := 0
+		for _, b := range f.Blocks {
+			for _, in := range b.Instrs {
+				lk, ok := in.(*ssa.Lookup)
+				if !ok {
+					continue
+				}
+				u, ok := lk.X.(*ssa.UnOp)
+				if !ok || u.Op != token.MUL {
+					continue
+				}
+				fa, ok := u.X.(*ssa.FieldAddr)
+				if !ok || fieldName(fa) != "SymTable" {
+					continue
+				}
+				n++
+				per++
+				key := fmt.Sprintf("%s|SymTable lookup#%d not filtered by spelling", shortName(f), per)
+				bad := ""
+				for _, ob := range f.Blocks {
+					iff, ok := ob.Instrs[len(ob.Instrs)-1].(*ssa.If)
+					if !ok {
+						continue
+					}
+					if !decidesReach(ob, b) {
+						continue
+					}
+					if s := spellingTest(iff.Cond, lk.Index, map[ssa.Value]bool{}, 0); s != "" {
+						bad = s
+					}
+				}
+				c.check(bad == "", "N15", key, c.L.Pos(instrPos(in)), "the lookup is reached only when "+bad+" accepts the name: labels spelled otherwise are never found")
+			}
+		}
+	}
+	c.floor("N15", 3)
+	c.analysed["N15_lookups"] = n
+}
+
+// spellingTest: the condition is computed by a regexp/strings/unicode predicate applied to key
+// (or to the string key was derived from).
+func spellingTest(cond, key ssa.Value, seen map[ssa.Value]bool, depth int) string {
+	if cond == nil || seen[cond] || depth > 8 {
+		return ""
+	}
+	seen[cond] = true
+	if call, ok := cond.(*ssa.Call); ok {
+		name := calleeName(call.Common())
+		isPred := strings.HasPrefix(name, "regexp.") || strings.HasPrefix(name, "(*regexp.Regexp).") || strings.HasPrefix(name, "unicode.") ||
+			name == "strings.HasPrefix" || name == "strings.HasSuffix" || name == "strings.Contains" || name == "strings.ContainsAny" || name == "strings.ContainsRune" || name == "strings.IndexByte" || name == "strings.IndexAny"
+		if isPred {
+			for _, a := range call.Call.Args {
+				if sameString(a, key) {
+					return name
+				}
+			}
+		}
+		return ""
+	}
+	if in, ok := cond.(ssa.Instruction); ok {
+		for _, op := range in.Operands(nil) {
+			if op != nil && *op != nil {
+				if s := spellingTest(*op, key, seen, depth+1); s != "" {
+					return s
+				}
+			}
+		}
+	}
+	return ""
+}
+
+// decidesReach: the If ending block ob decides whether block b runs — b is reachable from one
+// of its successors and not from another.
+func decidesReach(ob, b *ssa.BasicBlock) bool {
+	if len(ob.Succs) != 2 {
+		return false
+	}
+	reach := func(from *ssa.BasicBlock) bool {
+		seen := map[*ssa.BasicBlock]bool{}
+		st := []*ssa.BasicBlock{from}
+		for len(st) > 0 {
+			x := st[len(st)-1]
+			st = st[:len(st)-1]
+			if seen[x] {
+				continue
+			}
+			seen[x] = true
+			if x == b {
+				return true
+			}
+			if noReturnBlock(x) {
+				continue
+			}
+			st = append(st, x.Succs...)
+		}
+		return false
+	}
+	r0, r1 := reach(ob.Succs[0]), reach(ob.Succs[1])
+	return r0 != r1
+}
+
+func sameString(a, b ssa.Value) bool {
+	strip := func(v ssa.Value) ssa.Value {
+		for {
+			switch x := v.(type) {
+			case *ssa.Call:
+				n := calleeName(x.Common())
+				if (n == "strings.TrimSpace" || n == "strings.ToUpper" || n == "strings.ToLower") && len(x.Call.Args) == 1 {
+					v = x.Call.Args[0]
+					continue
+				}
+			case *ssa.Convert:
+				v = x.X
+				continue
+			case *ssa.Lookup:
+				if bt, ok := x.X.Type().Underlying().(*types.Basic); ok && bt.Info()&types.IsString != 0 {
+					v = x.X // s[i]
+					continue
+				}
+			case *ssa.Index:
+				v = x.X
+				continue
+			case *ssa.Slice:
+				if bt, ok := x.X.Type().Underlying().(*types.Basic); ok && bt.Info()&types.IsString != 0 {
+					// a prefix/suffix of the key is still about the key's spelling, but the
+					// bracket stripping `[ name ]` → name of LGDT is syntax, not spelling: keep
+					// slices distinct
+					return v
+				}
+			}
+			return v
+		}
+	}
+	return strip(a) == strip(b)
+}
+
+// ---------------------------------------------------------------------------------------
+// C9cfg: each bracket directive writes its own setting
+// ---------------------------------------------------------------------------------------
+
+func ruleC9cfg(c *Ctx) {
+	c.doc("C9cfg", "in the directive switch of TraverseAST each directive writes the one setting that belongs to it — FORMAT → OutputFormat, FILE → SourceFileName, SECTION → CurrentSection, BITS → BitMode — directly or through a helper that is given the address of that field")
+	fd, p := c.L.FuncDecl("internal/pass1", "TraverseAST")
+	if fd == nil {
+		c.anchorMissing("C9cfg", "pass1.TraverseAST")
+		return
+	}
+	want := map[string]string{"Format": "OutputFormat", "File": "SourceFileName", "Section": "CurrentSection", "Bits": "BitMode"}
+	settings := map[string]bool{"OutputFormat": true, "SourceFileName": true, "CurrentSection": true, "BitMode": true}
+	found := 0
+	ast.Inspect(fd.Body, func(x ast.Node) bool {
+		cc, ok := x.(*ast.CaseClause)
+		if !ok || len(cc.List) != 1 {
+			return true
+		}
+		sel, ok := cc.List[0].(*ast.SelectorExpr)
+		if !ok {
+			return true
+		}
+		k, ok := p.TypesInfo.Uses[sel.Sel].(*types.Const)
+		if !ok || k.Pkg() == nil || !strings.HasSuffix(k.Pkg().Path(), "internal/ast") {
+			return true
+		}
+		field, isDirective := want[sel.Sel.Name]
+		if !isDirective {
+			return true
+		}
+		found++
+		written := map[string]bool{}
+		for _, st := range cc.Body {
+			ast.Inspect(st, func(y ast.Node) bool {
+				switch s := y.(type) {
+				case *ast.AssignStmt:
+					for _, l := range s.Lhs {
+						if ls, ok := l.(*ast.SelectorExpr); ok && settings[ls.Sel.Name] {
+							if tn, _ := namedOf(p.TypesInfo.TypeOf(ls.X)); tn == "Pass1" {
+								written[ls.Sel.Name] = true
+							}
+						}
+					}
+				case *ast.UnaryExpr:
+					if s.Op == token.AND {
+						if ls, ok := s.X.(*ast.SelectorExpr); ok && settings[ls.Sel.Name] {
+							if tn, _ := namedOf(p.TypesInfo.TypeOf(ls.X)); tn == "Pass1" {
+								written[ls.Sel.Name] = true
+							}
+						}
+					}
+				}
+				return true
+			})
+		}
+		var others []string
+		for w := range written {
+			if w != field {
+				others = append(others, w)
+			}
+		}
+		sort.Strings(others)
+		key := "TraverseAST[" + sel.Sel.Name + "]"
+		c.check(written[field], "C9cfg", key+"|writes "+field, c.L.Pos(cc.Pos()), "the "+strings.ToUpper(sel.Sel.Name)+" clause does not set "+field)
+		c.check(len(others) == 0, "C9cfg", key+"|writes nothing else", c.L.Pos(cc.Pos()), "the "+strings.ToUpper(sel.Sel.Name)+" clause also writes "+strings.Join(others, ", ")+" (another directive's setting)")
+		return true
+	})
+	c.check(found == 4, "C9cfg", "directive clauses found", c.L.Pos(fd.Pos()), fmt.Sprintf("%d of 4 (BITS, FORMAT, FILE, SECTION)", found))
+}
+
+// ---------------------------------------------------------------------------------------
+// I1t: tables of value ranges
+// ---------------------------------------------------------------------------------------
+
+func ruleI1t(c *Ctx) {
+	c.doc("I1t", "a table literal that gives a {min,max} pair per operand width (1, 2, 4 bytes) lists, for each width n, a minimum of −2^(8n−1) or 0 and a maximum of 2^(8n−1)−1 or 2^(8n)−1 consistently (all rows signed, all unsigned, or all signed-minimum/unsigned-maximum): one row with the other kind of bound rejects or mis-sizes exactly the values at that boundary")
+	n := 0
+	for _, p := range c.L.Pkgs {
+		if !strings.HasPrefix(p.PkgPath, modPath) || relPkg(p) == "test" {
+			continue
+		}
+		for _, f := range p.Syntax {
+			if c.L.isGeneratedFile(f) {
+				continue
+			}
+			ast.Inspect(f, func(x ast.Node) bool {
+				cl, ok := x.(*ast.CompositeLit)
+				if !ok || len(cl.Elts) < 2 {
+					return true
+				}
+				type row struct {
+					w, lo, hi int64
+					pos       token.Pos
+				}
+				var rows []row
+				for _, e := range cl.Elts {
+					kv, ok := e.(*ast.KeyValueExpr)
+					if !ok {
+						return true
+					}
+					w, okw := constInt(p.TypesInfo, kv.Key)
+					vl, okv := kv.Value.(*ast.CompositeLit)
+					if !okw || !okv || len(vl.Elts) != 2 || (w != 1 && w != 2 && w != 4) {
+						return true
+					}
+					lo, ok1 := constInt(p.TypesInfo, valueOf(vl.Elts[0]))
+					hi, ok2 := constInt(p.TypesInfo, valueOf(vl.Elts[1]))
+					if !ok1 || !ok2 {
+						return true
+					}
+					rows = append(rows, row{w, lo, hi, kv.Pos()})
+				}
+				if len(rows) < 2 {
+					return true
+				}
+				kinds := map[string]bool{}
+				for _, r := range rows {
+					n++
+					bits := uint(8 * r.w)
+					smin, smax, umax := -(int64(1) << (bits - 1)), int64(1)<<(bits-1)-1, int64(1)<<bits-1
+					kind := ""
+					switch {
+					case r.lo == smin && r.hi == smax:
+						kind = "signed"
+					case r.lo == 0 && r.hi == umax:
+						kind = "unsigned"
+					case r.lo == smin && r.hi == umax:
+						kind = "either"
+					}
+					where := ""
+					if fd := enclosingFunc(f, cl.Pos()); fd != nil {
+						where = fdName(fd)
+					}
+					key := fmt.Sprintf("%s.%s|range row for %d byte(s)", relPkg(p), where, r.w)
+					if kind == "" {
+						c.fail("I1t", key, c.L.Pos(r.pos), fmt.Sprintf("[%d, %d] is not a canonical range of a %d-byte value", r.lo, r.hi, r.w))
+						continue
+					}
+					kinds[kind] = true
+					c.ok("I1t", key, c.L.Pos(r.pos), kind)
+				}
+				if len(kinds) > 1 {
+					var ks []string
+					for k := range kinds {
+						ks = append(ks, k)
+					}
+					sort.Strings(ks)
+					c.fail("I1t", fmt.Sprintf("%s|range table mixes %s", relPkg(p), strings.Join(ks, "/")), c.L.Pos(cl.Pos()), "rows of one range table use different kinds of bounds: "+strings.Join(ks, ", "))
+				}
+				return true
+			})
+		}
+	}
+	c.ok("I1t", "range tables scanned", "", fmt.Sprintf("%d rows", n))
+}
+
+func valueOf(e ast.Expr) ast.Expr {
+	if kv, ok := e.(*ast.KeyValueExpr); ok {
+		return kv.Value
+	}
+	return e
+}
+
+// ---------------------------------------------------------------------------------------
+// D2: moffs offsets follow the address size
+// ---------------------------------------------------------------------------------------
+
+func ruleD2(c *Ctx) {
+	c.doc("D2", "DisplacementBytes (the offset that follows the A0–A3 accumulator MOV opcodes) chooses its width from the bit mode alone: moffs16/moffs32 name the data width, the offset has the address size; no test of the operand's type takes part in the choice")
+	f := c.L.SSAFunc("pkg/ng_operand", "(*OperandPegImpl).DisplacementBytes")
+	if f == nil {
+		c.anchorMissing("D2", "pkg/ng_operand.(*OperandPegImpl).DisplacementBytes")
+		return
+	}
+	n := 0
+	for _, b := range f.Blocks {
+		iff, ok := b.Instrs[len(b.Instrs)-1].(*ssa.If)
+		if !ok {
+			continue
+		}
+		n++
+		src := condSource(iff.Cond, map[ssa.Value]bool{}, 0)
+		ok2 := true
+		for _, s := range src {
+			if !(strings.HasSuffix(s, "GetBitMode") || strings.HasSuffix(s, "GetMemoryInfo") || s == "field:bitMode") {
+				ok2 = false
+			}
+		}
+		c.check(ok2, "D2", fmt.Sprintf("DisplacementBytes|branch#%d", n), c.L.Pos(instrPos(iff)), fmt.Sprintf("the width of the offset depends on %v, not only on the bit mode", src))
+	}
+	c.check(n >= 2, "D2", "DisplacementBytes|branches found", c.L.Pos(f.Pos()), fmt.Sprintf("%d branches", n))
+}
+
+// condSource: the calls and receiver fields a condition is computed from.
+func condSource(v ssa.Value, seen map[ssa.Value]bool, depth int) []string {
+	if v == nil || seen[v] || depth > 10 {
+		return nil
+	}
+	seen[v] = true
+	switch x := v.(type) {
+	case *ssa.Const, *ssa.Parameter:
+		return nil
+	case *ssa.Call:
+		return []string{calleeOrDyn(x.Common())}
+	case *ssa.FieldAddr:
+		return []string{"field:" + fieldName(x)}
+	case ssa.Instruction:
+		var out []string
+		for _, op := range x.Operands(nil) {
+			if op != nil && *op != nil {
+				out = append(out, condSource(*op, seen, depth+1)...)
+			}
+		}
+		return out
+	}
+	return nil
+}
